@@ -233,7 +233,8 @@ func rulesC05(r *Run) {
 	r.Kind("R3", "K2")
 	ruleExecOutcome(r, "R3", fn, fl, paths, attemptObj)
 	ruleErrPermanent(r, "R3")
-	r.Expect("R3", 5)
+	ruleIsTypeExact(r, "R3")
+	r.Expect("R3", 6)
 
 	// ---- R4
 	r.Kind("R4", "K11")
@@ -948,4 +949,62 @@ func ruleRunnerGraph(r *Run, rule string) {
 		pos = lit.Pos()
 	}
 	r.Check(rule, "Execute:retry-op-is-exec", pos, n > 0 && calls == 1 && bad == "" && errStored, "%s", orOK(bad, "Retry op calls exec "+itoa(calls)+" time(s) per iteration and returns its error; Retry's result stored in Data.err="+boolStr(errStored)))
+}
+
+// ruleIsTypeExact (round-4 seed C05-8): "a response whose type differs from the declared response type" is decided by isType, and
+// the rules of R3 take its answer for exact. isType compares reflect.TypeOf of its two arguments and nothing else: a comparison
+// after stripping a pointer level, of kinds, or of names accepts a response the storage layer then decodes into the wrong type.
+func ruleIsTypeExact(r *Run, rule string) {
+	fn := r.fnByKey(rule, actKey("isType"))
+	if fn == nil {
+		return
+	}
+	info := fn.Pkg.TypesInfo
+	params := map[types.Object]bool{}
+	if fn.Decl.Type.Params != nil {
+		for _, f := range fn.Decl.Type.Params.List {
+			for _, n := range f.Names {
+				params[info.ObjectOf(n)] = true
+			}
+		}
+	}
+	isTypeOfParam := func(e ast.Expr) bool {
+		c, ok := ast.Unparen(e).(*ast.CallExpr)
+		if !ok || len(c.Args) != 1 {
+			return false
+		}
+		f, ok := calleeFunc(info, c)
+		if !ok || FuncKey(f) != "reflect.TypeOf" {
+			return false
+		}
+		return params[ObjOf(info, c.Args[0])]
+	}
+	bad := ""
+	var bpos token.Pos = fn.Decl.Pos()
+	cmps := 0
+	ast.Inspect(fn.Decl.Body, func(n ast.Node) bool {
+		switch x := n.(type) {
+		case *ast.BinaryExpr:
+			if x.Op != token.EQL && x.Op != token.NEQ {
+				return true
+			}
+			tv, ok := info.Types[x.X]
+			if !ok || TypeKey(tv.Type) != "reflect.Type" {
+				return true
+			}
+			cmps++
+			if (!isTypeOfParam(x.X) || !isTypeOfParam(x.Y)) && bad == "" {
+				bad, bpos = "isType compares "+ExprStr(x.X)+" with "+ExprStr(x.Y)+": the declared response type and the type of the response must be compared as they are (reflect.TypeOf of each argument)", x.Pos()
+			}
+		case *ast.CallExpr:
+			if f, ok := calleeFunc(info, x); ok && FuncKey(f) != "reflect.TypeOf" && bad == "" {
+				bad, bpos = "isType calls "+FuncKey(f)+": the types it compares are worked on first, so a response of another type than the declared one can pass for a match", x.Pos()
+			}
+		}
+		return true
+	})
+	if cmps == 0 && bad == "" {
+		bad = "isType does not compare reflect.TypeOf of its arguments"
+	}
+	r.Check(rule, "isType:exact-type-comparison", bpos, bad == "", "%s", orOK(bad, "reflect.TypeOf(a) == reflect.TypeOf(b)"))
 }
